@@ -149,8 +149,9 @@ CONFIG["C03"] = dict(
 )
 CONFIG["C10"] = dict(
     generated=True,
-    level_text="State machine model of a generated message (Model/GenSem.lean: New, Reset, raw and physical setters, CopyFrom, UnmarshalFrame, Frame); kernel-checked theorems (Props/C10.lean) prove for every descriptor and every argument: the raw-range invariant for all histories of construction, reset, raw setters, unmarshal and copy-from; no-leak (every encoded field decodes from the frame as stored; zeros elsewhere); re-encode identity (unmarshal of the own frame into any message, then marshal, gives the identical frame) and copy-from frame identity, for integer/bool signals in the class layout; the physical setter case is partial (finding F1), float32 signals are decided per run. Seeded operation sequences over the compiled generated packages are compared with the model after every step and judged by the invariant, frame validity, no-leak (frame = spec encoding of the raw values), re-encode identity, CopyFrom without aliasing and Reset.",
-    level_note="Partial proof (physical setters on >= 54-bit scaled signals violate the invariant: known finding F1); translation validation per generated program. " + "; ".join(_GEN_TRUSTED),
+    modules=["CanVerif.Props.C10", "CanVerif.Props.C10Phys"],
+    level_text="State machine model of a generated message (Model/GenSem.lean: New, Reset, raw and physical setters, CopyFrom, UnmarshalFrame, Frame); kernel-checked theorems (Props/C10.lean) prove for every descriptor and every argument: the raw-range invariant for all histories of construction, reset, raw setters, unmarshal and copy-from; no-leak (every encoded field decodes from the frame as stored; zeros elsewhere); re-encode identity (unmarshal of the own frame into any message, then marshal, gives the identical frame) and copy-from frame identity, for integer/bool signals in the class layout; physical setters (Props/C10Phys.lean): for every integer signal of 2..53 bits with finite offset and finite non-zero factor and every non-NaN argument including the infinities, the stored raw value is inside the representable range and the message invariant is preserved (binary64 arithmetic of the SoftFloat model: saturation leaves a finite double between the two exactly representable bounds, truncation toward zero stays between them, the conversion to the accessor type does not wrap); from 54 bits the statement is false on the unchanged tree (finding F1); float32 signals are decided per run. Seeded operation sequences over the compiled generated packages are compared with the model after every step and judged by the invariant, frame validity, no-leak (frame = spec encoding of the raw values), re-encode identity, CopyFrom without aliasing and Reset.",
+    level_note="Proof for all operations; physical setters proved for integer signals of <= 53 bits (on >= 54-bit scaled signals they violate the invariant: known finding F1); translation validation per generated program. " + "; ".join(_GEN_TRUSTED),
     level="proof",
     trivial=r"^(not-in-class)$",
     rule="operation sequences of length <= 40 (quick) / 400 (thorough) from the state-machine walker in harness/internal/ops/gendbc.go; one case = one sequence",
